@@ -548,6 +548,14 @@ class Resource(object):
 
         # if isinstance(obj, Ecore.EProxy) and not obj.resolved:
         if not getattr(obj, 'resolved', True):
+            # writing the reference asks for the class of its target, which
+            # resolves the proxy: done first, so that this save and the next
+            # one describe the target the same way
+            try:
+                obj.force_resolve()
+            except Exception:
+                pass
+        if not getattr(obj, 'resolved', True):
             return (obj._proxy_path, True)
 
         if obj.eResource != self:
